@@ -1153,6 +1153,7 @@ func pbServerCredsSerialize(in []*MsgCredServer) []*pbx.ServerCred {
 		out[i] = &pbx.ServerCred{
 			Method: cr.Method,
 			Value:  cr.Value,
+			Done:   cr.Done,
 		}
 	}
 
